@@ -320,8 +320,10 @@ class FuncTypestate(object):
                 if d.kind == 'VarDecl':
                     key = 'v:%s:%s' % (d.name, d.id[-5:])
                     if d.kids and d.kids[-1].kind not in ('Null',) and d.init:
+                        self._old_state = s.r.get(s.h.get(key), (None,))[0] if s.h.get(key) is not None else None
                         v = self.eval(d.kids[-1], s)
                         self.bind(s, key, v, d, d.kids[-1])
+                        self._old_state = None
                         if d.id in self.flags:
                             iv = int_value(d.kids[-1])
                             if iv is not None:
@@ -352,7 +354,7 @@ class FuncTypestate(object):
             others = [k for k, r in s.h.items() if r == old and k != key]
             if not others:
                 self.report('overwrite-live', node, old, dict(at=node.loc))
-        if old is not None and old == newrid and not key.endswith('[]') and s.r.get(old, (None,))[0] == LIVE \
+        if old is not None and old == newrid and not key.endswith('[]') and (getattr(self, '_old_state', None) or s.r.get(old, (None,))[0]) == LIVE \
                 and rhs is not None and self._acquire_of(strip(rhs, casts=True)) not in (None,) and not isinstance(self._acquire_of(strip(rhs, casts=True)), tuple):
             # same acquisition site executed again while the previous instance is still live (loop)
             self.report('overwrite-live', node, old, dict(at=node.loc, note='re-acquired in a loop while live'))
@@ -394,6 +396,8 @@ class FuncTypestate(object):
                 return ('rid', rid)
             return None
         if k == 'BinaryOperator' and e.op == '=':
+            k0 = self.hkey(e.kids[0])
+            self._old_state = s.r.get(s.h.get(k0), (None,))[0] if (k0 is not None and s.h.get(k0) is not None) else None
             v = self.eval(e.kids[1], s)
             lhs = e.kids[0]
             for c in strip(lhs).kids:
@@ -401,6 +405,7 @@ class FuncTypestate(object):
             key = self.hkey(lhs)
             if key is not None:
                 self.bind(s, key, v, e, e.kids[1])
+                self._old_state = None
                 l = strip(lhs)
                 if l.kind == 'DeclRefExpr' and l.refid in self.flags:
                     iv = int_value(e.kids[1])
@@ -484,6 +489,15 @@ class FuncTypestate(object):
             d = self.eng.derived_release(name, self.f)
             if d is not None:
                 idx, kinds = d, None
+            # a helper that releases the elements of arrays handed to it
+            for ei in self.eng.derived_release_elems(name, self.f):
+                if ei < len(args):
+                    ak = self.hkey(args[ei])
+                    if ak is not None:
+                        ak = ak if ak.endswith('[]') else ak + '[]'
+                        rid_ = s.h.get(ak)
+                        if rid_ is not None and s.r.get(rid_, (None,))[0] in (LIVE, ESCAPED):
+                            s.r[rid_] = (RELEASED, s.r[rid_][1])
         if idx is not None and idx < len(vals):
             v = vals[idx]
             if v and v[0] == 'rid':
@@ -710,6 +724,35 @@ class ResourceEngine(object):
         self._rel_cache[k] = r
         return r
 
+    def derived_release_elems(self, name, caller):
+        """parameter indices whose *elements* the callee releases: `for (...) release(P[i])` with P a pointer-to-pointer
+        parameter (a helper that frees an array of tables).  Syntactic, one level."""
+        k = ('elems', name)
+        if k in self._rel_cache:
+            return self._rel_cache[k]
+        out = []
+        g = self.prog.resolve(name, caller) if name else None
+        if g is not None and g.body is not None and name not in REL:
+            pidx = dict((p_.id, i) for i, p_ in enumerate(g.params))
+            for c in g.body.find('CallExpr'):
+                cn = callee_name(c)
+                if cn is None:
+                    continue
+                ridx = None
+                if cn in REL:
+                    ridx = REL[cn][1]
+                else:
+                    ridx = self.derived_release(cn, g)
+                if ridx is None or ridx + 1 >= len(c.kids):
+                    continue
+                a = strip(c.kids[1 + ridx], casts=True)
+                if a.kind == 'ArraySubscriptExpr':
+                    b = strip(a.kids[0], casts=True)
+                    if b.kind == 'DeclRefExpr' and b.refid in pidx and pidx[b.refid] not in out:
+                        out.append(pidx[b.refid])
+        self._rel_cache[k] = out
+        return out
+
     def escaping_params(self, name, caller):
         S = self.eff.summary(name, caller)
         if S is None:
@@ -800,7 +843,12 @@ def _npp(e, fs, depth=0):
         if d is not None and strip(d, casts=True).kind in ('MemberExpr', 'DeclRefExpr', 'UnaryOperator'):
             return _npp(d, fs, depth + 1)
     if e.kind == 'MemberExpr':
-        return _npp(e.kids[0], fs, depth) + ('->' if e.arrow else '.') + (e.name or '?')
+        b = _npp(e.kids[0], fs, depth)
+        if e.arrow and b.startswith('&'):
+            return b[1:] + '.' + (e.name or '?')          # (&X[i])->f  is  X[i].f
+        return b + ('->' if e.arrow else '.') + (e.name or '?')
+    if e.kind == 'ArraySubscriptExpr':
+        return _npp(e.kids[0], fs, depth) + '[' + pp(strip(e.kids[1], casts=True)) + ']'
     if e.kind == 'UnaryOperator' and e.op == '&':
         return '&' + _npp(e.kids[0], fs, depth)
     return pp(e)
@@ -876,12 +924,14 @@ def rule_E5(ctx, prog, label, rule='E5'):
         f = prog.func('m4ri_mmc_malloc')
         g = cfg_of(f)
         pd = g.postdominators(exit_only=True)
-        st_ = _stores(f)
-        hand = [(l, r, n) for (l, r, n) in st_ if pp(strip(r, casts=True)).endswith('.data') and not l.endswith('.data')]
+        from .symbolic import FuncSym as _FSm
+        fsm = _FSm(f)
+        st_ = _stores(f, fsm)
+        hand = [(l, r, n) for (l, r, n) in st_ if _npp(r, fsm).endswith('.data') and not l.endswith('.data')]
         ok = bool(hand)
         why = 'no cached block is handed out any more' if not hand else ''
         for (l, r, n) in hand:
-            slot = pp(strip(r, casts=True))[:-5]
+            slot = _npp(r, fsm)[:-5]
             cn = _cnode_of(g, n)
             need = {slot + '.data': False, slot + '.size': False}
             for (l2, r2, n2) in st_:
@@ -898,26 +948,25 @@ def rule_E5(ctx, prog, label, rule='E5'):
         g = cfg_of(f)
         dom = g.dominators()
         p0 = f.params[0].name
-        st_ = _stores(f)
+        from .symbolic import FuncSym
+        fs = FuncSym(f)
+        st_ = _stores(f, fs)
         keep = [(l, r, n) for (l, r, n) in st_ if l.endswith('.data') and pp(strip(r, casts=True)) == p0]
         ok = bool(keep)
         why = ''
-        fs = None
         for (l, r, n) in keep:
             slot = l[:-5]
             cn = _cnode_of(g, n)
             # (a) under `slot.size == 0`
-            from .symbolic import FuncSym
-            fs = fs or FuncSym(f)
             under_free = False
             for ifs in fs.enclosing_all(n, ('IfStmt',)):
                 c = strip(ifs.kids[0], casts=True)
-                if c.kind == 'BinaryOperator' and c.op == '==' and pp(strip(c.kids[0], casts=True)) == slot + '.size' and int_value(c.kids[1]) == 0 \
+                if c.kind == 'BinaryOperator' and c.op == '==' and _npp(c.kids[0], fs) == slot + '.size' and int_value(c.kids[1]) == 0 \
                         and any(x is n for x in ifs.kids[1].walk()):
                     under_free = True
             freed = False
             for c in f.body.find('CallExpr'):
-                if callee_name(c) == 'm4ri_mm_free' and pp(strip(c.kids[1], casts=True)) == slot + '.data':
+                if callee_name(c) == 'm4ri_mm_free' and _npp(c.kids[1], fs) == slot + '.data':
                     c2 = _cnode_of(g, c)
                     if c2 is not None and c2.id in dom.get(cn.id, ()):
                         freed = True
@@ -938,13 +987,13 @@ def rule_E5(ctx, prog, label, rule='E5'):
                             okd = False
                             for ifs in fs.enclosing_all(d_, ('IfStmt',)):
                                 c_ = strip(ifs.kids[0], casts=True)
-                                if c_.kind == 'BinaryOperator' and c_.op == '==' and pp(strip(c_.kids[0], casts=True)).endswith('.size') and int_value(c_.kids[1]) == 0:
+                                if c_.kind == 'BinaryOperator' and c_.op == '==' and _npp(c_.kids[0], fs).endswith('.size') and int_value(c_.kids[1]) == 0:
                                     okd = True
                             # followed in the same block by m4ri_mm_free(mm[v].data)
                             blk = fs.enclosing(d_, ('CompoundStmt',))
                             if blk is not None:
                                 for c in blk.find('CallExpr'):
-                                    if callee_name(c) == 'm4ri_mm_free' and pp(strip(c.kids[1], casts=True)) == slot + '.data':
+                                    if callee_name(c) == 'm4ri_mm_free' and _npp(c.kids[1], fs) == slot + '.data':
                                         okd = True
                             if not okd:
                                 just = False
